@@ -80,7 +80,21 @@ CLAIMED["C03"] = dict(
     note="Trusted: shim fidelity (bounded channels, disconnect semantics, pool as 'any idle worker picks any queued task'); hooks H1 add only scheduling points. Each run is replayable from its recorded decision list.",
     engine="thread-sim")
 
-NOT_YET = {p: "claimed in DESIGN.md; check under construction in this round (will move to checks when registered)" for p in ["C15","C16"]}
+CLAIMED["C15"] = dict(
+    category="fault_enumeration", design="DESIGN.md §8 C15",
+    technique="deterministic simulation with stored-data fault enumeration: every single-byte substitution x value set and every 4-byte field overwrite x special values at raw / re-sealed-payload layers; process-contained panic, abort, hang and allocation oracles",
+    text="A valid generated file of every kind sits on the simulated disk; one stored-data fault is applied per run: byte "
+         "substitution at every offset (small files; boundary-biased + seeded sample above) x 6 values, 4-byte LE overwrite at "
+         "the same offsets x {0,1,0x7fffffff,0x80000000,0xffffffff}, truncations; layers: raw bytes, BGZF payload re-wrapped "
+         "with valid CRC/ISIZE, CRAM with block/container CRCs re-sealed and every block's method byte set to every codec. The "
+         "reader reads to EOF/error, every Ok record is rendered (all accessors), corrupted indexes that load are used for "
+         "queries on the intact data. Oracle: Ok/Err only; panics caught, aborts/stack overflows/hangs attributed through "
+         "worker-process containment; a fixed memory policy (single request > 1 GiB or live heap > 2 GiB refused) makes "
+         "allocation failures machine-independent. Complete for the one-fault space of each small generated file.",
+    note="Trusted: the memory policy as the definition of 'allocation fails'; accessor coverage = what the text renderers/owned conversions touch. Many genuine defects are listed in known_findings.json (per source file of the panic site).",
+    engine="seq-sim")
+
+NOT_YET = {p: "claimed in DESIGN.md; check under construction in this round (will move to checks when registered)" for p in ["C16"]}
 
 NOT_APPLICABLE = {
     "C04": "pure function of (records, block layout, index geometry, region): no schedule, fault, crash point or history in the statement; input generation with a scan oracle is not deterministic simulation. Reader-state carry-over between seeks is decided in C02, delivery independence of queries in C12, corrupt indexes in C15.",
